@@ -104,7 +104,7 @@ unsigned MessageBase::extract_trailer(const f8String& from, f8String& chksum)
 //-------------------------------------------------------------------------------------------------
 unsigned MessageBase::decode(const f8String& from, unsigned s_offset, unsigned ignore, bool permissive_mode)
 {
-	const unsigned fsize(static_cast<unsigned>(from.size()) - ignore), npos(0xffffffff);
+	const unsigned fsize(static_cast<unsigned>(from.size()) - ignore), npos(0xffffffff), start_offset(s_offset);
 	unsigned pos(static_cast<unsigned>(_pos.size())), last_valid_pos(npos);
 	const char *dptr(from.data());
 	char tag[FIX8_MAX_FLD_LENGTH], val[FIX8_MAX_FLD_LENGTH];
@@ -133,7 +133,10 @@ unknown_field:
 		s_offset += result;
 		if (itr->_field_traits.has(FieldTrait::present))
 		{
-			if (!itr->_field_traits.has(FieldTrait::automatic))
+			// BeginString, BodyLength, MsgType and CheckSum are present from construction: meeting them is expected only
+			// by a caller that decodes from the start of the message, resp. up to its end; a caller that has skipped
+			// them (Message::factory) meets them only if the message repeats them
+			if (!itr->_field_traits.has(FieldTrait::automatic) || (tv == Common_CheckSum ? ignore != 0 : start_offset != 0))
 				throw DuplicateField(tv);
 		}
 		else for(unsigned ii(0); ii < 2; ++ii)
